@@ -92,7 +92,13 @@ pub fn materialize(base: &Path, tree: &[Node]) {
                 }
             }
             "l" => {
-                let text: PathBuf = if let Some(t) = n.extra.get("text").filter(|t| !t.is_null()) {
+                let text: PathBuf = if n.extra.get("reltext").and_then(|b| b.as_bool()).unwrap_or(false) && n.target != 0 {
+                    // a link one directory below the top whose target is a top-level node: "../NAME", with the name the
+                    // target has now (names may have been rewritten after the tree was drawn)
+                    let mut t = b"../".to_vec();
+                    t.extend(&tree[n.target - 1].name);
+                    PathBuf::from(std::ffi::OsStr::from_bytes(&t))
+                } else if let Some(t) = n.extra.get("text").filter(|t| !t.is_null()) {
                     PathBuf::from(std::ffi::OsStr::from_bytes(&json_to_bytes(t)))
                 } else if n.target == 0 {
                     PathBuf::from(format!("nonexistent-{}", idx + 1))
